@@ -99,6 +99,7 @@ func (s *Sim) OfferRaw(b *refchain.Block, raw []byte, family string) (refchain.R
 		s.Run.Inc("utxo_dumps_compared")
 	}
 	s.Run.Inc("deliveries")
+	s.Run.Distinct("chain_states_compared", th, len(s.Ref.Utxo))
 	s.Run.Inc("family/" + family)
 	s.Run.Inc("ref_stage/" + rr.Stage)
 	if rr.Reason != "" {
